@@ -70,6 +70,9 @@ CHECKS = {
     "C31": C("c31", dict(checks=4000, shards=2, timeout=300), dict(checks=40000, shards=16, timeout=3000),
              "property-based testing (rapid): round trips of generated feature IDs through every encoding, and order laws on generated triples with a differential against the compact index order",
              "Trusted: encoders/decoders of encoding/json, gopkg.in/yaml.v2 and protobuf. IDs in the postcode and ONS alias namespaces are restricted to values the packers produce (other values have no alias form). Namespaces exclude control characters."),
+    "C32": C("c32", dict(checks=2000, shards=2, timeout=600), dict(checks=30000, shards=16, timeout=6000),
+             "property-based testing (rapid): round trip of generated GeoJSON geometries and collections, and a model-based check of the import (vertex cycles, containment probes, properties)",
+             "Trusted: encoding/json and s2 containment. Multi-points and multi-line-strings have no b6 counterpart and are only round-tripped, not imported. Rings are closed (first == last) with >= 3 distinct vertices."),
     "C34": C("c34", dict(checks=5000, shards=2, timeout=300), dict(checks=50000, shards=16, timeout=3000),
              "property-based testing (rapid): differential against two recursive reference implementations plus validity predicates (first/last kept, subsequence)",
              "Trusted: the two recursive references (the repository's own via hook VerifReferenceDouglasPeuckerSimplify, and one in the harness using the same tie and split conventions). Finite coordinates, non-negative tolerance, at least 2 points."),
